@@ -250,7 +250,7 @@ def run_impl(exe, cases, per_case_timeout=10.0, cwd=None, env=None, extra_args=(
 ASCII_WORDS = [b"a", b"b", b"c", b"dir", b"src", b"main.go", b"README.md", b"Makefile", b"x y", b"foo", b"bar",
                b"k8s", b"v1.2", b"node_modules", b"tmp"]
 BULLETY = [b"-", b"*", b"+", b"#", b"- x", b"* y", b"+ z", b"# h", b"a-b", b"a*b", b"a+b", b"a#b", b"--", b"-*+",
-           b"a - b", b"x -", b" - lead", b"##x"]
+           b"a - b", b"x -", b" - lead", b"##x", b"C#", b"f#", b"x ##", b"a #"]
 UNICODE = ["日本語".encode(), "é".encode(), "é".encode(), "a b".encode(), "　x".encode(),
            "x　".encode(), "🌳".encode(), "ß".encode(), " ".encode() + b"z", "ｆ".encode()]
 BLANKY = [b" a", b"a ", b"  a  ", b"\ta", b"a\tb", b" ", b"  ", b"\t", b"a\rb"]
